@@ -12,7 +12,7 @@ import (
 )
 
 func init() {
-	register(&Rule{ID: "C19.EQ", Min: 2, Doc: "structural equality of container values compares the sizes of both sides (symmetric)", Run: runC19Eq})
+	register(&Rule{ID: "C19.EQ", Min: 3, Doc: "structural equality of container values compares the sizes of both sides (symmetric)", Run: runC19Eq})
 	register(&Rule{ID: "C19.EXPR", Min: 4, Doc: "values written as expressions are never the reason for a duplicate/exclude report", Run: runC19Expr})
 	register(&Rule{ID: "C19.CAND", Min: 4, Doc: "candidates are row values plus include values not structurally equal to one present; exclude values are matched candidate-first", Run: runC19Cand})
 	register(&Rule{ID: "C06.ANY", Min: 15, Doc: "wherever a type test can lead to a diagnostic, `any` is accepted without one", Run: runC06Any})
@@ -26,6 +26,7 @@ func init() {
 
 func runC19Eq(c *Ctx) {
 	p := c.P
+	runC19SubsetSeq(c)
 	for _, fn := range p.Funcs {
 		if fn.Name() != "Equals" || fn.Signature.Recv() == nil || fn.Parent() != nil {
 			continue
@@ -83,6 +84,58 @@ func runC19Eq(c *Ctx) {
 				c.bad(construct, fn.Pos(), "equality iterates one side only and never compares the sizes: {a: 1} equals {a: 1, b: 2} but not vice versa, so duplicate detection depends on the order of the values")
 			}
 		}
+	}
+}
+
+// sizesCompared: some function of fns compares len(a.f) with len(b.f) for two different values a, b (f given as T.f).
+func sizesCompared(fns []*ssa.Function, fname string) bool {
+	found := false
+	lenOf := func(v ssa.Value) ssa.Value {
+		call, ok := v.(*ssa.Call)
+		if !ok {
+			return nil
+		}
+		if b, ok := call.Call.Value.(*ssa.Builtin); !ok || b.Name() != "len" {
+			return nil
+		}
+		ld, ok := call.Call.Args[0].(*ssa.UnOp)
+		if !ok {
+			return nil
+		}
+		fa, ok := ld.X.(*ssa.FieldAddr)
+		if !ok || fieldAddrName(fa) != fname {
+			return nil
+		}
+		return fa.X
+	}
+	for _, fn := range fns {
+		eachInstr(fn, func(_ *ssa.BasicBlock, _ int, in ssa.Instruction) {
+			bo, ok := in.(*ssa.BinOp)
+			if !ok || (bo.Op != token.NEQ && bo.Op != token.EQL) {
+				return
+			}
+			a, b := lenOf(bo.X), lenOf(bo.Y)
+			if a != nil && b != nil && a != b {
+				found = true
+			}
+		})
+	}
+	return found
+}
+
+// the sequence case of the exclude filter's subset test: sequences match element by element, so they have the same length
+func runC19SubsetSeq(c *Ctx) {
+	p := c.P
+	sub := p.Func("isYAMLValueSubset")
+	if sub == nil {
+		c.anchorMissing("isYAMLValueSubset")
+		return
+	}
+	construct := "isYAMLValueSubset|sizes of RawYAMLArray.Elems"
+	if sizesCompared(p.withHelpers(sub, 2), "RawYAMLArray.Elems") {
+		c.ok(construct, sub.Pos(), "a sequence of the filter matches a sequence of the same length only")
+	} else {
+		c.bad(construct, sub.Pos(), "the lengths of the two sequences are never compared for equality: an exclude value [a] matches the candidate [a, b] (or the other way round), so the entry is not reported")
 	}
 }
 
@@ -205,6 +258,24 @@ func runC19Expr(c *Ctx) {
 							if (nilSucc == 0) != outcome {
 								guarded = true
 							}
+						}
+					}
+					// the values handed in as a parameter that every caller fills from MatrixRow.Values
+					if prm, ok := v.(*ssa.Parameter); ok && (nilSucc == 0) != outcome {
+						idx := paramIndexOf(dup, prm)
+						callers := p.callersOf(dup)
+						all := idx >= 0 && len(callers) > 0
+						for _, e := range callers {
+							if e.Site == nil || e.Site.Common().IsInvoke() || idx >= len(e.Site.Common().Args) {
+								all = false
+								continue
+							}
+							if f, _ := fieldLoad(e.Site.Common().Args[idx]); f != "MatrixRow.Values" {
+								all = false
+							}
+						}
+						if all {
+							guarded = true
 						}
 					}
 				}
